@@ -295,12 +295,15 @@ func (c *GroupCoordinator) Heartbeat(ctx context.Context, req *kmsg.HeartbeatReq
 		c.mu.Unlock()
 		return mkResp(protocol.ILLEGAL_GENERATION)
 	}
-	if state.state != groupStateStable {
-		c.mu.Unlock()
-		return mkResp(protocol.REBALANCE_IN_PROGRESS)
-	}
+	// A heartbeat of a known member carrying the current generation keeps its
+	// session alive in every phase; during a rebalance it is additionally told
+	// to rejoin. Refreshing only in the stable phase would expire members that
+	// heartbeat faithfully through a rebalance longer than their session timeout.
 	member.lastHeartbeat = time.Now()
 	resp := mkResp(protocol.NONE)
+	if state.state != groupStateStable {
+		resp.ErrorCode = protocol.REBALANCE_IN_PROGRESS
+	}
 	if err := c.persistGroupLocked(ctx, req.Group, state); err != nil {
 		resp.ErrorCode = protocol.UNKNOWN_SERVER_ERROR
 	}
